@@ -39,7 +39,7 @@ def plan(tier, seed):
             specs.append({"tier": tier, "part": "setters", "field": f, "lo": lo, "hi": lo + 65536 // n_chunks, "seed": env.shard_seed(i)}); i += 1
     specs.append({"tier": tier, "part": "notes", "seed": env.shard_seed(i)}); i += 1
     for k in range(2 if tier == "quick" else 8):
-        specs.append({"tier": tier, "part": "patterns", "seed": env.shard_seed(i), "n": 60 if tier == "quick" else 150}); i += 1
+        specs.append({"tier": tier, "part": "patterns", "seed": env.shard_seed(i), "n": 60 if tier == "quick" else 150, "long_patterns": k == 0}); i += 1
     for lm in range(5):
         specs.append({"tier": tier, "part": "vis", "level_mode": lm, "seed": env.shard_seed(i)}); i += 1
     specs.append({"tier": tier, "part": "packed_io", "seed": env.shard_seed(i)})
@@ -184,12 +184,16 @@ def part_notes(res, rng, tier):
 
 
 # ------------------------------------------------------------------ (b) pattern images
-def part_patterns(res, rng, tier, n):
+def part_patterns(res, rng, tier, n, long_patterns=True):
     from rv.api import Pattern, Project, read_sunvox_file
     from rv.note import NOTECMD
     vals = sorted({int(m) for m in NOTECMD})
     max_lines = 64 if tier == "quick" else 512
-    shapes = [(1, 1), (32, 1), (1, max_lines), (32, 64), (3, 5), (4, 32), (2, 300), (1, 257), (3, 1024)]  # (tracks, lines); small ints are cached objects in CPython, large ones are not
+    shapes = [(1, 1), (32, 1), (1, max_lines), (32, 64), (3, 5), (4, 32), (2, 300), (1, 257), (3, 1024),
+              # very long patterns, around the powers of two up to the 2**19 lines SunVox allows
+              (1, 65535), (1, 65536), (1, 65537), (1, 2 ** 19), (1, 2 ** 19 - 1), (2, 2 ** 18)]  # (tracks, lines); small ints are cached objects in CPython, large ones are not
+    if not long_patterns:
+        shapes = shapes[:9]
     for k in range(n):
         if k < len(shapes):
             tracks, lines = shapes[k]
@@ -301,6 +305,11 @@ def part_pattern_sequences(res, rng, n):
                 # OUTER file
                 outer0 = api.Project()
                 outer0.new_module(api.m.MetaModule, project=p0)
+                if rng.random() < 0.5:
+                    # the OUTER file is an old one (stamped below 1.9.5.0); the embedded project is a complete file image with
+                    # its own, current stamp
+                    outer0.sunvox_version = rng.choice([(1, 9, 4, 0), (1, 7, 0, 0)])
+                    start = "loaded-embedded-in-old-outer-file"
                 holder = api.read_sunvox_file(__import__("io").BytesIO(outer0.read()))
                 proj = holder.modules[1].project
                 pat = proj.patterns[0]
@@ -562,7 +571,7 @@ def run_shard(spec_, res):
     elif part == "notes":
         part_notes(res, rng, spec_["tier"])
     elif part == "patterns":
-        part_patterns(res, rng, spec_["tier"], spec_["n"])
+        part_patterns(res, rng, spec_["tier"], spec_["n"], spec_.get("long_patterns", True))
         part_pattern_sequences(res, rng, spec_["n"] * 6)
     elif part == "vis":
         part_vis(res, spec_["level_mode"], spec_["tier"], rng)
